@@ -91,6 +91,52 @@ def check(P: Project, R: Report) -> None:
         R.need(q in T.models, f"anchor vanished: {cname}")
         R.ob("R1", f"envelope {cname} declares no alias", q not in declaring, T.models[q].ci.module.rel, "an aliased envelope member would be emitted under its Python name by the transports (they dump without by_alias)")
     # library helpers that build dicts for the wire by hand from alias-bearing models: dumps of nested members
+    # ------------------------------------------------------------------ R4: hooks leave members alone
+    R.rule("R4", "members are preserved exactly: no construction/validation hook of a protocol model class — its own or one inherited from any package class, mixins included — stores into the instance (self.x = …, setattr, object.__setattr__, __dict__ writes), and no Pydantic validator/serializer decorator transforms a value")
+    from ..models import PYDANTIC_DECORATORS
+
+    HOOKS = ("model_post_init", "__post_init__", "__init__", "__setattr__", "model_validate", "model_dump", "model_dump_json")
+    n_hook = 0
+    for q, m in sorted(T.models.items()):
+        if m.ci.module.name.startswith("chuk_mcp.transports."):
+            continue  # transport parameter classes are configuration, not wire views
+        chain = [m.ci] + T.package_bases(m.ci)
+        for ci2 in chain:
+            for f in P.methods(ci2).values():
+                deco = [ast.unparse(d.func if isinstance(d, ast.Call) else d).split(".")[-1] for d in f.node.decorator_list]
+                pyd = [d for d in deco if d in PYDANTIC_DECORATORS]
+                if f.name not in HOOKS and not pyd:
+                    continue
+                if f.name in ("model_dump", "model_dump_json", "model_validate") and ci2.module.name == A.MOD_JSONRPC:
+                    continue  # the legacy envelope's dump overrides are C02-R5's subject (top-level None filter only)
+                n_hook += 1
+                R.fn(f.fq)
+                selfname = (f.positional_params() or ["self"])[0]
+                writes = []
+                for n in (x for stmt in f.node.body for x in walk_local(stmt)):
+                    if isinstance(n, (ast.Assign, ast.AugAssign, ast.AnnAssign)):
+                        tgs = n.targets if isinstance(n, ast.Assign) else [n.target]
+                        for t in tgs:
+                            for tt in ast.walk(t):
+                                if isinstance(tt, ast.Attribute) and isinstance(tt.value, ast.Name) and tt.value.id == selfname and isinstance(tt.ctx, ast.Store):
+                                    writes.append(f"line {n.lineno}: `{ast.unparse(t)} = …`")
+                                if isinstance(tt, ast.Subscript) and ast.unparse(tt.value) in (f"{selfname}.__dict__", f"vars({selfname})"):
+                                    writes.append(f"line {n.lineno}: `{ast.unparse(t)} = …`")
+                    if isinstance(n, ast.Call):
+                        cn = call_name(n)
+                        if cn in ("setattr", "object.__setattr__", "super().__setattr__") and n.args and ast.unparse(n.args[0]) == selfname or cn in (f"{selfname}.__dict__.update", f"{selfname}.__dict__.pop", f"{selfname}.__dict__.setdefault"):
+                            writes.append(f"line {n.lineno}: `{ast.unparse(n)[:50]}`")
+                if pyd and any(d in ("field_validator", "validator", "model_validator", "root_validator", "field_serializer", "model_serializer") for d in pyd):
+                    # a validator must hand back the value it was given
+                    vparams = [p_ for p_ in f.positional_params() if p_ not in ("cls", "self")]
+                    for r in walk_local(f.node):
+                        if isinstance(r, ast.Return) and r.value is not None and not (isinstance(r.value, ast.Name) and r.value.id in vparams):
+                            writes.append(f"line {r.lineno}: @{pyd[0]} returns `{ast.unparse(r.value)[:40]}`, not its input")
+                R.ob("R4", f"{m.name}: hook {ci2.name}.{f.name} leaves the members alone", not writes, f"{ci2.module.rel}:{f.node.lineno}",
+                     f"{m.name} is not a lossless view: " + "; ".join(writes[:3]) + " — a member that came off the wire is replaced, so validate → dump no longer returns it exactly",
+                     sample=f"R4 {m.name} ← {ci2.name}.{f.name}: no store into the instance")
+    R.ob("R4", "construction hooks of protocol models were examined", n_hook >= 3, "", f"{n_hook} hooks on protocol model classes and their package bases")
+
     # ------------------------------------------------------------------ R2
     for q, m in sorted(T.models.items()):
         ex = m.config.get("extra", "allow")
